@@ -187,7 +187,7 @@ def main():
 def main2(prop, cfg, tier, seed, scratch, instr_stats, replay_mode, t_start):
     binaries = {}
     notes = [instr_stats]
-    want_race = [False] + ([True] if cfg.get("race") else [])
+    want_race = [False] + ([True] if (cfg.get("race") or any(x.get("race") for x in cfg.get("also", []))) else [])
     for race in want_race:
         b, msg = build(scratch, race)
         if b is None:
@@ -228,7 +228,7 @@ def main2(prop, cfg, tier, seed, scratch, instr_stats, replay_mode, t_start):
         rr = int(tcfg.get("race_runs", max(1, total_runs // 4)))
         phases.append((True, rr, cfg["engine"], {}))
     for extra in cfg.get("also", []):
-        phases.append((extra.get("race", False), int(extra["runs_" + tier]), extra["engine"], {}))
+        phases.append((extra.get("race", False), int(extra["runs_" + tier]), extra["engine"], extra.get("env", {})))
     if cfg.get("cabi"):
         env2, msg = build_cabi(scratch)
         if env2 is None:
@@ -351,7 +351,7 @@ def main2(prop, cfg, tier, seed, scratch, instr_stats, replay_mode, t_start):
             return 2
     runs = sum(s["runs"] for s in summaries)
     print("%s %s: %d runs, %d distinct non-trivial, %d new violation(s), %d known finding(s), %.1fs" % (
-        prop, tier, runs, len(set(h for s in summaries for h in s.get("hashes", []))), len(new), len(known_hits), time.time() - t_start))
+        prop, tier, runs, len(set(h for s in summaries for h in (s.get("hashes") or []))), len(new), len(known_hits), time.time() - t_start))
     return 1 if new else 0
 
 
